@@ -291,22 +291,6 @@ theorem good_grpcHeartbeat (s : St) (id mask : Nat) (d w : Bool) (hinv : Inv s.s
         refine ⟨h.inv, h.fwd, h.bury, h.failed, ?_⟩
         intro hr; exact absurd rfl hr
 
-theorem good_handleHeartbeat (s : St) (id mask : Nat) (d w : Bool) (hinv : Inv s.served s.stored) :
-    Good s (handleHeartbeat s id mask) d w := by
-  unfold handleHeartbeat
-  split
-  · exact good_reject s _ d w hinv
-  · next sv hsv =>
-    split
-    · exact good_reject s _ d w hinv
-    · have h : Good s (commit s id { sv with persisted := true } (failBit mask 0)) d w := by
-        apply good_commit s id _ _ d w hinv
-        · intro a ha; rw [hsv] at ha; cases ha; exact fwd_refl _
-        · intro _ a ha h3 h4; rw [hsv] at ha; cases ha; exact absurd h4 h3
-        · exact addr_kept s id sv _ hinv hsv rfl (fun h => h)
-      refine ⟨h.inv, h.fwd, h.bury, h.failed, ?_⟩
-      intro hr; exact absurd rfl hr
-
 theorem good_removeStore (s : St) (id : Nat) (destroyed : Bool) (mask : Nat) (d w : Bool)
     (hinv : Inv s.served s.stored) : Good s (removeStore s id destroyed mask) d w := by
   unfold removeStore
@@ -728,7 +712,6 @@ theorem good_step (s : St) (op : Op) (hinv : Inv s.served s.stored) :
   | rmtomb order mask => exact good_removeTombstones s order mask _ hinv
   | region rid stores => exact good_regionHeartbeat s rid stores _ _ hinv
   | labelsFrom r force mask => exact good_putImpl s r force _ _ _ hinv
-  | hbHandle id mask => exact good_handleHeartbeat s id mask _ _ hinv
   | checkOnly ids mask => exact good_checkStoresOnly s ids mask _ hinv
 
 end PdModel.StoreFsm
